@@ -1,7 +1,13 @@
 """C11 — The stored database stays a well-formed Engine library.  Assembled from a schema-1.x part and a schema-2.x part."""
 from props import _combine
 
-_combine.install(globals(), "C11", ["C11_v1", "C11_v2", "C11_v2_tracks"], dict(
+_combine.install(globals(), "C11", [
+    "C11_v1",
+    "C11_v2",
+    "C11_v2_tracks",
+    "C11_lib1",
+    "C11_lib2",
+], dict(
     text="",
     note="see design/C11.md",
     technique="Lean 4 refinement / invariant theorems over executable models of both schema generations + "
